@@ -130,6 +130,12 @@ def desc_lines(desc, method_obj=None):
                 L.append("cc " + E.to_tokens(cc_))
             for (e, o) in con.get('offs', []):
                 L.append("off %d %s" % (int(o), E.to_tokens(e)))
+            if con['grid'] == 'inf':
+                for op in con.get('infops', []):
+                    if op[0] == 'inert':
+                        L.append("iop inert " + E.to_tokens(op[1]))
+                    else:
+                        L.append("iop der %d" % int(op[1]))
     qi = nq
     for kind, e in desc['phs']:
         if kind == 'integral':
